@@ -178,7 +178,7 @@ def by_gene_sets(mk, d):
     return [list(ix[ip[g]:ip[g + 1]]) for g in range(len(mk['genes']))]
 
 
-def oracle_valid(prof, a, b, exact=True, p_th=0.01):
+def oracle_valid(prof, a, b, exact=True, p_th=0.01, lf_th=1.0):
     """strict criteria from the per-cell data; returns per gene
     True / False / None (too close to a threshold to call)"""
     from scipy import stats as sst
@@ -211,12 +211,12 @@ def oracle_valid(prof, a, b, exact=True, p_th=0.01):
     out = []
     for g in range(ng):
         close = (0.2 * p_th < adj[g] < 5 * p_th) or abs(q1[g] - 0.5) < 0.02 \
-            or abs(qd[g] - 0.7) < 0.02 or abs(lf[g] - 1.0) < 0.05
+            or abs(qd[g] - 0.7) < 0.02 or abs(lf[g] - lf_th) < 0.05
         if close:
             out.append(None)
         else:
             out.append(bool(adj[g] < p_th and q1[g] > 0.5 and qd[g] > 0.7
-                            and lf[g] > 1.0))
+                            and lf[g] > lf_th))
     return out
 
 
@@ -327,6 +327,28 @@ def run_stage(ctx, case, faults=False):
         th = {t: THRESHOLDS[t][1 if i + 1 == w else 0]
               for i, t in enumerate(names)}
         SEEN['calls'] = []
+    if case.get('hair'):
+        # one gene misses the strict fold threshold by a hair (1e-5) in a
+        # pair that keeps another strict marker: with n_valid = 1 it must
+        # not be recorded (the solver picks the pair among those that
+        # have two strict markers)
+        n_valid = 1
+        cand = []
+        for a, b in itertools.combinations(sorted(LEAVES), 2):
+            if sizes[a] < 2 or sizes[b] < 2:
+                continue
+            want = oracle_valid(prof, a, b)
+            strict = [g for g in range(len(GENES)) if want[g]]
+            lf = np.abs(prof[a].mean(axis=0) - prof[b].mean(axis=0))
+            if len(strict) >= 2:
+                strict.sort(key=lambda g: lf[g])
+                if lf[strict[1]] - lf[strict[0]] > 0.06:
+                    cand.append((a, b, strict[0], float(lf[strict[0]])))
+        if not cand:
+            raise core.PathAbort('no pair with two strict markers')
+        a, b, g, v = cand[ctx.choice('pair_with_a_near_miss', len(cand))]
+        th = {'log2_fold_th': v + 1.0e-5}
+        res['hair'] = (a, b, g)
     res['thresholds'] = th
 
     def go(path, nproc, faults_on):
@@ -483,10 +505,19 @@ def check_tables(ctx, res):
             isup = g in up[i]
             ctx.check(isup == bool(mb[g] > ma[g]),
                       'direction == sign of the difference of means')
-        if res.get('thresholds') and any(
+        if res.get('hair'):
+            ha, hb, hg = res['hair']
+            lf_th = res['thresholds']['log2_fold_th']
+            if (a, b) == (ha, hb):
+                ctx.check(hg not in marked, 'a gene missing a strict '
+                          'threshold by a hair is not recorded when the '
+                          'pair has its n_valid strict markers')
+        elif res.get('thresholds') and any(
                 v != THRESHOLDS[t][0] for t, v in res['thresholds'].items()):
             continue          # the data oracle knows the defaults only
-        want = oracle_valid(res['prof'], a, b)
+        else:
+            lf_th = 1.0
+        want = oracle_valid(res['prof'], a, b, lf_th=lf_th)
         for g in range(ng):
             if want[g] is None or (gl is not None and GENES[g] not in gl):
                 continue
